@@ -18,8 +18,12 @@ CLAIMS = {
         "C06_retained_trie_refines, C06_retained_pruned_preserved, C06_retained_store_refines, C06_retained_partial; topics beginning "
         "with '$' (outside the quantifier) are turned away by all five entry points, store unchanged (C06_dollar_topics_rejected); a '$' "
         "anywhere else is an ordinary character since finding B4 ('$' below the first level rejected) was repaired "
-        "(C06_dollar_level_literal: 'a/$b' is subscribed, matched literally and retained). PARTIAL: the history/levels theorems carry "
-        "the decidable hypothesis 'no empty level in any topic argument' (and retained topics are valid names) - exactly the open "
+        "(C06_dollar_level_literal: 'a/$b' is subscribed, matched literally and retained); the empty topic (zero characters: neither a "
+        "name nor a filter, MQTT-4.7.3-1) is turned away by all five entry points as well since finding B6 (the empty filter was stored "
+        "at the root of the trie and granted) was repaired, and no entry point reaches the root node of either trie "
+        "(C06_empty_topic_rejected). PARTIAL: the history/levels theorems carry "
+        "the decidable hypothesis 'no empty level in any topic argument - the empty topic itself is admitted -' (and retained topics "
+        "are valid names or empty) - exactly the open "
         "finding B3 (empty levels, pinned by the suite); queried names/filters additionally must not begin with '$' (`good`); the "
         "unrestricted statements are kept next to proved counterexamples (C06_subscribers_full_counterexample, "
         "C06_retained_full_counterexample, C06_levels_counterexample_empty_level) and the "
@@ -96,8 +100,8 @@ CLAIMS['C01'] = dict(category='proof', ref='5 Core E, 8 C01', text=_BROKER_TEXT 
     "nothing is forwarded to it (C01_connection_end_partial); B3 counterexample (C01_publish_held_full_counterexample).") + _PARTIAL_SCHED +
     " Not carried through: the held-list abstraction across CONNECT of a resumed session and connection end (stated at trie level instead).")
 CLAIMS['C07'] = dict(category='proof', ref='5 Core E, 8 C07', text=_BROKER_TEXT % (
-    "Theorems (16): exactly one SUBACK, first, same id, one code per filter in request order = min(requested, maximum) or 0x80, everything after it is a "
-    "PUBLISH to the subscriber (C07_suback_shape); codes equal the reference broker's for good filters (C07_codes_spec_partial; 'a/$b' and '+/$b' are granted since the repair of B4: C07_codes_dollar_level; the empty filter is a B3-family counterexample); "
+    "Theorems (17): exactly one SUBACK, first, same id, one code per filter in request order = min(requested, maximum) or 0x80, everything after it is a "
+    "PUBLISH to the subscriber (C07_suback_shape); codes equal the reference broker's for EVERY filter that does not begin with '$', empty levels and the empty filter included (C07_codes_spec_full_holds - the full statement, true since the repair of B6: the store accepts exactly the valid filters, Proofs.Topics.levels_ok / entryLevels_ok; C07_codes_spec_partial is its corollary; 'a/$b' and '+/$b' are granted since the repair of B4: C07_codes_dollar_level; the empty filter gets 0x80 on both sides: C07_codes_empty_filter); "
     "UNSUBSCRIBE answered by exactly one UNSUBACK (C07_unsuback); effect on the trie, other subscribers untouched (C07_subscribe_effect, "
     "C07_unsubscribe_effect, C07_granted_is_held); a matching PUBLISH accepted after the SUBACK is forwarded, none after the UNSUBACK "
     "(C07_effective_after_suback_partial, C07_none_after_unsuback_partial); the held list of the reference broker is maintained (C07_held_refines_partial, "
@@ -189,12 +193,16 @@ CLAIMS['C18'] = dict(category='other', ref='5 Core G, 8 C18',
          "Ackqueue, Session, MemProvider, Server.svcs, service.conn/in/out/outtmp, the traffic counters, package-level variables written "
          "after init): every `recv.field` access with the mutexes lexically held, helper functions judged by the meet over all their call "
          "sites, references copied out of guarded structs. C18_table_disciplined_except_findings (by decide): every row obeys the "
-         "hand-written expectation guardOf EXCEPT the rows of the open findings G4 (provider registries written by every Client.Connect) and "
+         "hand-written expectation guardOf EXCEPT the rows of the open finding "
          "G5 (Session.Cmsg/Will read by package service without Session.mu while a resumed session rewrites them); a removed lock, an access "
-         "moved out of its critical section or a new unguarded accessor breaks it. C18_escapes_recorded: the only references leaving a "
-         "critical section are the recorded ones (G1: Retained hands out pointers into storage that Retain rewrites in place - open). "
+         "moved out of its critical section or a new unguarded accessor breaks it. C18_escapes_recorded: the only reference leaving a "
+         "critical section is the recorded one (assumption A-acked: Acked returns its internal slice). "
          "C18_conforming_trace_race_free: a trace generated by the table is race-free on every covered location class; "
-         "C18_uncovered_are_recorded lists the classes left out. Repaired in the repository (fix: commits) and no longer excused: G2 (stop "
+         "C18_uncovered_are_recorded lists the classes left out. Repaired in the repository (fix: commits) and no longer excused: G1 (Retained handed out pointers "
+         "into storage that Retain rewrites in place; now deep copies made under rmu, so the escaping references are gone from the table), "
+         "G4 (the provider registries of topics/sessions/auth, written by every Client.Connect and client stop with no lock; now under a "
+         "package-level RWMutex each, which the extractor records and guardOf demands - the registries are covered classes now: "
+         "C18_core_state_covered), G2 (stop "
          "cleared conn/in/out read elsewhere: nil dereference in writeMessage), G3 (Close/Count paths ignored the mutexes), G6 (traffic "
          "counters read plainly), Session.ID, and getSession's unlocked read of Cmsg (nil while a concurrent CONNECT with the same client id "
          "has created but not initialised the session: nil-pointer panic in the unrecovered accept goroutine, ending the broker). NOT proved: that the program's executions are traces generated by the table (no aliasing, no "
